@@ -66,6 +66,41 @@ type c13LadnInd struct {
 	Dnns []string `json:"dnns_hex"`
 }
 
+// c13SnssaiSeq: several S-NSSAI conversions one after the other in one process; every one of them must give the
+// octets its own arguments define (a conversion that remembers earlier arguments gives them for the wrong S-NSSAI).
+type c13SnssaiSeq struct {
+	Items []c13Snssai `json:"items"`
+}
+
+func c13SnssaiSeqExec(c *core.Ctx, in c13SnssaiSeq) {
+	c.Distinct(core.Hash64("snssai-seq", fmt.Sprint(in.Items)), true)
+	for i, it := range in.Items {
+		var enc, rej []byte
+		var back models.Snssai
+		lv := refconv.SnssaiEncodeLV(it.ref())
+		pi := core.Try(func() {
+			enc = nasConvert.SnssaiToNas(models.Snssai{Sst: int32(it.Sst), Sd: it.Sd})
+			rej = nasConvert.RejectedSnssaiToNas(models.Snssai{Sst: int32(it.Sst), Sd: it.Sd}, 2)
+			e := nasType.NewSNSSAI(0x22)
+			e.SetLen(lv[0])
+			copy(e.Octet[:], lv[1:])
+			back = nasConvert.SnssaiToModels(e)
+		})
+		if pi != nil {
+			c.FailCase("snssai-sequence|"+pi.Key(), "panics: "+pi.Msg, "snssai-seq", in)
+			return
+		}
+		got, n, err := refconv.SnssaiLV(enc)
+		rs, err2 := refconv.RejectedNssai(rej)
+		if err != nil || n != len(enc) || got.Sst != it.Sst || got.Sd != it.Sd || got.HasMapped ||
+			err2 != nil || len(rs) != 1 || rs[0].Sst != it.Sst || rs[0].Sd != it.Sd || rs[0].Cause != 2 ||
+			back.Sst != int32(it.Sst) || back.Sd != it.Sd {
+			c.FailCase("snssai-sequence|depends-on-earlier-call", fmt.Sprintf("conversion %d of the sequence %+v: SnssaiToNas = %x, RejectedSnssaiToNas = %x, SnssaiToModels(%x) = %+v", i+1, in.Items, enc, rej, lv, back), "snssai-seq", in)
+			return
+		}
+	}
+}
+
 func c13SnssaiExec(c *core.Ctx, in c13Snssai) {
 	c.Distinct(core.Hash64("snssai", in.Sst, in.Sd), in.Sd != "")
 	fail := func(k, w string) { c.FailCase("snssai|"+k, w, "snssai", in) }
@@ -366,6 +401,29 @@ func c13Run(c *core.Ctx) {
 	thorough := c.Thorough()
 	var n int64
 	sds := []string{"", "000000", "000001", "010203", "abcdef", "ffffff"}
+	// sequences first (a fresh process has converted nothing yet): all ordered pairs over 3 SSTs x 6 SDs, and the
+	// triples that repeat the first item
+	{
+		var items []c13Snssai
+		for _, sst := range []uint8{0, 1, 0x2b} {
+			for _, sd := range sds {
+				items = append(items, c13Snssai{Sst: sst, Sd: sd})
+			}
+		}
+		for i, a := range items {
+			if !c.Mine(i) {
+				continue
+			}
+			if !c.Begin("snssai-seq", "Snssai", a) {
+				continue
+			}
+			for _, b := range items {
+				c13SnssaiSeqExec(c, c13SnssaiSeq{Items: []c13Snssai{a, b}})
+				c13SnssaiSeqExec(c, c13SnssaiSeq{Items: []c13Snssai{a, b, a}})
+				n += 2
+			}
+		}
+	}
 	for sst := 0; sst < 256; sst++ {
 		if !c.Mine(sst) {
 			continue
@@ -626,6 +684,7 @@ func c13Run(c *core.Ctx) {
 
 func init() {
 	core.RegisterKind("C13", "snssai", c13SnssaiExec)
+	core.RegisterKind("C13", "snssai-seq", c13SnssaiSeqExec)
 	core.RegisterKind("C13", "nssai", c13NssaiExec)
 	core.RegisterKind("C13", "nssai-raw", c13RawExec)
 	core.RegisterKind("C13", "rejected", c13RejectedExec)
